@@ -1,6 +1,383 @@
-/- Helper lemmas for C13. -/
+/- Helper lemmas for C13 (error precedence and the error taxonomy). -/
 import SigV4.Spec.ValidateSpec
+import SigV4.Lemmas.C14
+import SigV4.Props.C09
+import SigV4.Props.C10
 
 namespace SigV4
+
+/-! ### The six built-in kinds -/
+
+/-- The kinds the crate itself (as opposed to the key provider) can report. -/
+def ErrKind.builtin (k : ErrKind) : Prop :=
+  k = .InvalidURIPath ∨ k = .MalformedQueryString ∨ k = .InvalidBodyEncoding ∨
+    k = .MissingAuthenticationToken ∨ k = .IncompleteSignature ∨ k = .SignatureDoesNotMatch
+
+theorem ErrKind.builtin_mem {k : ErrKind} (h : k.builtin) :
+    k ∈ [ErrKind.InvalidURIPath, .MalformedQueryString, .InvalidBodyEncoding,
+         .MissingAuthenticationToken, .IncompleteSignature, .SignatureDoesNotMatch] := by
+  rcases h with h | h | h | h | h | h <;> subst h <;> simp
+
+/-! ### `validate` stopped in one of the first two stages -/
+
+theorem validate_of_fromRequestParts_err {σ : Type} (H : Bytes → Bytes) (cfg : Config)
+    (P : Provider σ) (s : σ) (req : Request) (k : ErrKind)
+    (h : fromRequestParts H cfg.opts cfg.other req = .err k) :
+    validate H cfg P s req = { out := .err k, state := s, calls := [] } := by
+  unfold validate
+  simp only [h]
+
+theorem validate_of_getAuthenticator_err {σ : Type} (H : Bytes → Bytes) (cfg : Config)
+    (P : Provider σ) (s : σ) (req : Request) (fp : FromParts) (k : ErrKind)
+    (hfp : fromRequestParts H cfg.opts cfg.other req = .ok fp)
+    (h : getAuthenticator H cfg.reqs fp.creq = .err k) :
+    validate H cfg P s req = { out := .err k, state := s, calls := [] } := by
+  unfold validate
+  simp only [hfp, h]
+
+/-! ### `fromRequestParts` -/
+
+theorem decodeFormBody_err_kind (charset : Option Bytes) (other : OtherCharset) (body : Bytes)
+    (k : ErrKind) (h : decodeFormBody charset other body = .err k) : k = .InvalidBodyEncoding := by
+  unfold decodeFormBody at h
+  simp only at h
+  repeat' split at h
+  all_goals first | (cases h; rfl) | cases h
+
+theorem fromRequestParts_path_err (H : Bytes → Bytes) (opts : Options) (other : OtherCharset)
+    (req : Request) (k : ErrKind) (h : canonPath opts.s3 req.path = .err k) :
+    fromRequestParts H opts other req = .err .InvalidURIPath := by
+  have hk := (C09.canonPath_err_kind opts.s3 req.path).1 k h
+  subst hk
+  unfold fromRequestParts
+  simp only [h]
+
+theorem fromRequestParts_query_err (H : Bytes → Bytes) (opts : Options) (other : OtherCharset)
+    (req : Request) (p : Bytes) (k : ErrKind) (hp : canonPath opts.s3 req.path = .ok p)
+    (hq : parseQuery (req.query.getD []) = .err k) :
+    fromRequestParts H opts other req = .err .MalformedQueryString := by
+  have hk := (C10.parseQuery_err_kind _).1 k hq
+  subst hk
+  unfold fromRequestParts
+  simp only [hp, hq]
+
+theorem fromRequestParts_body_err (H : Bytes → Bytes) (opts : Options) (other : OtherCharset)
+    (req : Request) (p : Bytes) (up : QueryMap) (k : ErrKind)
+    (hp : canonPath opts.s3 req.path = .ok p)
+    (hq : parseQuery (req.query.getD []) = .ok up) (hf : foldsBody opts req.headers = true)
+    (hd : decodeFormBody ((contentTypeCharset req.headers).bind (·.2)) other req.body = .err k) :
+    fromRequestParts H opts other req = .err k := by
+  unfold fromRequestParts
+  simp only [hp, hq, hf, hd, if_true]
+
+theorem fromRequestParts_body_query_err (H : Bytes → Bytes) (opts : Options) (other : OtherCharset)
+    (req : Request) (p : Bytes) (up : QueryMap) (text : Bytes) (k : ErrKind)
+    (hp : canonPath opts.s3 req.path = .ok p)
+    (hq : parseQuery (req.query.getD []) = .ok up) (hf : foldsBody opts req.headers = true)
+    (hd : decodeFormBody ((contentTypeCharset req.headers).bind (·.2)) other req.body = .ok text)
+    (ht : parseQuery text = .err k) :
+    fromRequestParts H opts other req = .err .MalformedQueryString := by
+  have hk := (C10.parseQuery_err_kind _).1 k ht
+  subst hk
+  unfold fromRequestParts
+  simp only [hp, hq, hf, hd, ht, if_true]
+
+theorem fromRequestParts_err_kind (H : Bytes → Bytes) (opts : Options) (other : OtherCharset)
+    (req : Request) (k : ErrKind) (h : fromRequestParts H opts other req = .err k) :
+    k = .InvalidURIPath ∨ k = .MalformedQueryString ∨ k = .InvalidBodyEncoding := by
+  cases hp : canonPath opts.s3 req.path with
+  | err k' =>
+    rw [fromRequestParts_path_err H opts other req k' hp] at h
+    cases h; exact .inl rfl
+  | panic site => exact absurd hp ((C09.canonPath_err_kind _ _).2 site)
+  | ok p =>
+    cases hq : parseQuery (req.query.getD []) with
+    | err k' =>
+      rw [fromRequestParts_query_err H opts other req p k' hp hq] at h
+      cases h; exact .inr (.inl rfl)
+    | panic site => exact absurd hq ((C10.parseQuery_err_kind _).2 site)
+    | ok up =>
+      cases hf : foldsBody opts req.headers with
+      | false =>
+        unfold fromRequestParts at h
+        simp only [hp, hq, hf] at h
+        cases h
+      | true =>
+        cases hd : decodeFormBody ((contentTypeCharset req.headers).bind (·.2)) other req.body with
+        | err k' =>
+          rw [fromRequestParts_body_err H opts other req p up k' hp hq hf hd] at h
+          cases h
+          exact .inr (.inr (decodeFormBody_err_kind _ _ _ _ hd))
+        | panic site =>
+          unfold fromRequestParts at h
+          simp only [hp, hq, hf, hd, if_true] at h
+          cases h
+        | ok text =>
+          cases ht : parseQuery text with
+          | err k' =>
+            rw [fromRequestParts_body_query_err H opts other req p up text k' hp hq hf hd ht] at h
+            cases h; exact .inr (.inl rfl)
+          | panic site => exact absurd ht ((C10.parseQuery_err_kind _).2 site)
+          | ok bp =>
+            unfold fromRequestParts at h
+            simp only [hp, hq, hf, hd, ht, if_true] at h
+            repeat' split at h
+            all_goals first | (cases h; exact .inr (.inl rfl)) | cases h
+
+/-! ### Parameter extraction -/
+
+theorem authHeaderParamLoop_err_kind (ps : List Bytes) (m : List (Bytes × Bytes)) (k : ErrKind)
+    (h : authHeaderParamLoop ps m = .err k) : k = .IncompleteSignature := by
+  induction ps generalizing m with
+  | nil => cases h
+  | cons p rest ih =>
+    unfold authHeaderParamLoop at h
+    simp only at h
+    split at h
+    · exact ih _ h
+    · split at h
+      · cases h; rfl
+      · exact ih _ h
+
+theorem authParamsFromHeader_bad_alg (c : CanonReq) (ah : Bytes)
+    (h : (splitFirst 0x20 (trimAscii ah)).1 ≠ AWS4_HMAC_SHA256) :
+    authParamsFromHeader c ah = .err .IncompleteSignature := by
+  unfold authParamsFromHeader
+  simp only [ne_eq, h, not_false_eq_true, if_true]
+
+theorem authParamsFromHeader_err_kind (c : CanonReq) (ah : Bytes) (k : ErrKind)
+    (h : authParamsFromHeader c ah = .err k) : k = .IncompleteSignature := by
+  unfold authParamsFromHeader at h
+  simp only at h
+  split at h
+  · cases h; rfl
+  · split at h
+    · rename_i k' hl
+      cases h
+      exact authHeaderParamLoop_err_kind _ _ _ hl
+    · cases h
+    · split at h
+      · cases h
+      · cases h; rfl
+
+theorem authParamsFromQuery_bad_alg (c : CanonReq) (alg : Bytes) (h : alg ≠ AWS4_HMAC_SHA256) :
+    authParamsFromQuery c alg = .err .MissingAuthenticationToken := by
+  unfold authParamsFromQuery
+  simp only [ne_eq, h, not_false_eq_true, if_true]
+
+theorem authParamsFromQuery_err_kind (c : CanonReq) (alg : Bytes) (k : ErrKind)
+    (h : authParamsFromQuery c alg = .err k) :
+    k = .IncompleteSignature ∨ k = .MissingAuthenticationToken := by
+  unfold authParamsFromQuery at h
+  split at h
+  · cases h; exact .inr rfl
+  · split at h
+    · split at h <;> cases h
+    · cases h; exact .inl rfl
+
+theorem extractAuthParams_none_none (c : CanonReq) (h1 : assocGet c.headers AUTHORIZATION = none)
+    (h2 : assocGet c.params X_AMZ_ALGORITHM = none) :
+    extractAuthParams c = .err .MissingAuthenticationToken := by
+  unfold extractAuthParams
+  simp only [h1, h2]
+
+theorem extractAuthParams_some_some (c : CanonReq) (x y : List Bytes)
+    (h1 : assocGet c.headers AUTHORIZATION = some x)
+    (h2 : assocGet c.params X_AMZ_ALGORITHM = some y) :
+    extractAuthParams c = .err .SignatureDoesNotMatch := by
+  unfold extractAuthParams
+  rw [h1, h2]
+  cases x <;> cases y <;> rfl
+
+theorem extractAuthParams_err_kind (c : CanonReq) (k : ErrKind) (h : extractAuthParams c = .err k) :
+    k = .MissingAuthenticationToken ∨ k = .IncompleteSignature ∨ k = .SignatureDoesNotMatch := by
+  unfold extractAuthParams at h
+  split at h
+  · exact .inr (.inl (authParamsFromHeader_err_kind _ _ _ h))
+  · rcases authParamsFromQuery_err_kind _ _ _ h with h' | h'
+    · exact .inr (.inl h')
+    · exact .inl h'
+  · cases h
+  · cases h
+  · cases h; exact .inr (.inr rfl)
+  · cases h; exact .inl rfl
+
+theorem getAuthParams_of_extract_err (reqs : Requirements) (c : CanonReq) (k : ErrKind)
+    (h : extractAuthParams c = .err k) : getAuthParams reqs c = .err k := by
+  unfold getAuthParams
+  simp only [h]
+
+theorem getAuthParams_of_requirements (reqs : Requirements) (c : CanonReq) (ap : AuthParams)
+    (h : extractAuthParams c = .ok ap)
+    (hr : requirementsMet reqs c.headers ap.signedHeaders = false) :
+    getAuthParams reqs c = .err .SignatureDoesNotMatch := by
+  unfold getAuthParams
+  simp only [h, hr, Bool.false_eq_true, if_false]
+
+theorem getAuthParams_err_kind (reqs : Requirements) (c : CanonReq) (k : ErrKind)
+    (h : getAuthParams reqs c = .err k) :
+    k = .MissingAuthenticationToken ∨ k = .IncompleteSignature ∨ k = .SignatureDoesNotMatch := by
+  unfold getAuthParams at h
+  split at h
+  · rename_i k' he
+    cases h
+    exact extractAuthParams_err_kind c _ he
+  · cases h
+  · split at h
+    · cases h
+    · cases h; exact .inr (.inr rfl)
+
+theorem getAuthenticator_of_getAuthParams_err (H : Bytes → Bytes) (reqs : Requirements) (c : CanonReq)
+    (k : ErrKind) (h : getAuthParams reqs c = .err k) : getAuthenticator H reqs c = .err k := by
+  unfold getAuthenticator
+  simp only [h]
+
+theorem getAuthenticator_of_bad_date (H : Bytes → Bytes) (reqs : Requirements) (c : CanonReq)
+    (ap : AuthParams) (h : getAuthParams reqs c = .ok ap) (hd : parseIso ap.timestampStr = none) :
+    getAuthenticator H reqs c = .err .IncompleteSignature := by
+  unfold getAuthenticator authenticatorOf
+  simp only [h, hd]
+
+theorem getAuthenticator_err_kind (H : Bytes → Bytes) (reqs : Requirements) (c : CanonReq) (k : ErrKind)
+    (h : getAuthenticator H reqs c = .err k) :
+    k = .MissingAuthenticationToken ∨ k = .IncompleteSignature ∨ k = .SignatureDoesNotMatch := by
+  unfold getAuthenticator at h
+  split at h
+  · rename_i k' he
+    cases h
+    exact getAuthParams_err_kind reqs c _ he
+  · cases h
+  · unfold authenticatorOf at h
+    split at h
+    · cases h; exact .inr (.inl rfl)
+    · cases h
+
+theorem authOf_err_kind (H : Bytes → Bytes) (cfg : Config) (req : Request) (k : ErrKind)
+    (h : authOf H cfg req = .err k) : k.builtin := by
+  unfold authOf at h
+  split at h
+  · rcases getAuthenticator_err_kind H _ _ k h with h' | h' | h'
+    · exact .inr (.inr (.inr (.inl h')))
+    · exact .inr (.inr (.inr (.inr (.inl h'))))
+    · exact .inr (.inr (.inr (.inr (.inr h'))))
+  · rename_i k' hfp
+    cases h
+    rcases fromRequestParts_err_kind H _ _ req _ hfp with h' | h' | h'
+    · exact .inl h'
+    · exact .inr (.inl h')
+    · exact .inr (.inr (.inl h'))
+  · cases h
+
+/-! ### `prevalidate` -/
+
+theorem C13.minTs_of_representable (now : Int) (hr : nowRepresentable now) :
+    minTs now = now - ALLOWED_MISMATCH := by
+  unfold nowRepresentable at hr
+  unfold minTs
+  rw [if_neg (by omega)]
+
+theorem C13.maxTs_of_representable (now : Int) (hr : nowRepresentable now) :
+    maxTs now = now + ALLOWED_MISMATCH := by
+  unfold nowRepresentable at hr
+  unfold maxTs
+  rw [if_neg (by omega)]
+
+theorem C13.prevalidate_inside (a : Authenticator) (region service : Bytes) (now : Int)
+    (hr : nowRepresentable now) (h : inWindow a.timestamp now) :
+    prevalidate a region service now = scopeCheck a region service := by
+  unfold inWindow at h
+  unfold prevalidate scopeCheck
+  rw [C13.minTs_of_representable now hr, C13.maxTs_of_representable now hr]
+  rw [if_neg (by omega), if_neg (by omega)]
+  rfl
+
+theorem C13.prevalidate_outside (a : Authenticator) (region service : Bytes) (now : Int)
+    (hr : nowRepresentable now) (h : ¬ inWindow a.timestamp now) :
+    prevalidate a region service now = .err .SignatureDoesNotMatch := by
+  unfold inWindow at h
+  unfold prevalidate
+  rw [C13.minTs_of_representable now hr, C13.maxTs_of_representable now hr]
+  by_cases h1 : a.timestamp < now - ALLOWED_MISMATCH
+  · rw [if_pos h1]
+  · rw [if_neg h1, if_pos (by omega)]
+
+theorem C13.scopeCheck_not_five (a : Authenticator) (region service : Bytes)
+    (h : (splitOn 0x2F a.credential).length ≠ 5) :
+    scopeCheck a region service = .err .IncompleteSignature := by
+  unfold scopeCheck
+  split
+  · next heq => rw [heq] at h; simp at h
+  · rfl
+
+theorem C13.scopeCheck_five_cases (a : Authenticator) (region service : Bytes)
+    (h : (splitOn 0x2F a.credential).length = 5) :
+    scopeCheck a region service = .ok () ∨
+      scopeCheck a region service = .err .SignatureDoesNotMatch := by
+  unfold scopeCheck
+  split
+  · split
+    · exact .inl rfl
+    · exact .inr rfl
+  · next hne =>
+    exfalso
+    match hs : splitOn 0x2F a.credential, h with
+    | [x1, x2, x3, x4, x5], _ => exact hne x1 x2 x3 x4 x5 hs
+
+theorem C13.prevalidate_err_kind (a : Authenticator) (region service : Bytes) (now : Int) (k : ErrKind)
+    (h : prevalidate a region service now = .err k) :
+    k = .IncompleteSignature ∨ k = .SignatureDoesNotMatch := by
+  unfold prevalidate at h
+  repeat' split at h
+  all_goals first | (cases h; first | exact .inl rfl | exact .inr rfl) | cases h
+
+/-! ### The tail of `validate` -/
+
+theorem validate_out_of_validateSignature_err {σ : Type} (H : Bytes → Bytes) (cfg : Config)
+    (P : Provider σ) (s : σ) (req : Request) (a : Authenticator) (k : ErrKind)
+    (ha : authOf H cfg req = .ok a)
+    (h : (validateSignature H P s a cfg.region cfg.service cfg.now).out = .err k) :
+    (validate H cfg P s req).out = .err k := by
+  obtain ⟨fp, _, _, hv⟩ := validate_of_authOf_ok H cfg P s req a ha
+  rw [hv]
+  simp only [finish, h, Outcome.map_err]
+
+theorem validate_of_prevalidate_err {σ : Type} (H : Bytes → Bytes) (cfg : Config)
+    (P : Provider σ) (s : σ) (req : Request) (a : Authenticator) (k : ErrKind)
+    (ha : authOf H cfg req = .ok a)
+    (h : prevalidate a cfg.region cfg.service cfg.now = .err k) :
+    (validate H cfg P s req).out = .err k ∧ (validate H cfg P s req).calls = [] := by
+  obtain ⟨fp, _, _, hv⟩ := validate_of_authOf_ok H cfg P s req a ha
+  rw [hv, validateSignature_prevalidate_err H P s a _ _ _ k h]
+  exact ⟨rfl, rfl⟩
+
+theorem validate_calls_of_prevalidate_not_ok {σ : Type} (H : Bytes → Bytes) (cfg : Config)
+    (P : Provider σ) (s : σ) (req : Request) (a : Authenticator)
+    (ha : authOf H cfg req = .ok a)
+    (h : prevalidate a cfg.region cfg.service cfg.now ≠ .ok ()) :
+    (validate H cfg P s req).calls = [] := by
+  obtain ⟨fp, _, _, hv⟩ := validate_of_authOf_ok H cfg P s req a ha
+  cases hp : prevalidate a cfg.region cfg.service cfg.now with
+  | ok u => cases u; exact absurd hp h
+  | err k => rw [hv, validateSignature_prevalidate_err H P s a _ _ _ k hp]; rfl
+  | panic p => rw [hv, validateSignature_prevalidate_panic H P s a _ _ _ p hp]; rfl
+
+/-- After the pre-checks the outcome is that of the key lookup followed by the comparison. -/
+theorem validate_out_of_prevalidate_ok {σ : Type} (H : Bytes → Bytes) (cfg : Config)
+    (P : Provider σ) (s : σ) (req : Request) (a : Authenticator) (sts : Bytes)
+    (ha : authOf H cfg req = .ok a)
+    (hp : prevalidate a cfg.region cfg.service cfg.now = .ok ()) (hs : stringToSign a = .ok sts) :
+    ∃ fp : FromParts, (validate H cfg P s req).out =
+      (match (getSigningKey P s a cfg.region cfg.service).out with
+        | .err k => .err k
+        | .panic p => .panic p
+        | .ok resp =>
+          if a.signature = hexLower (hmac H resp.key sts) then .ok resp
+          else .err .SignatureDoesNotMatch : Outcome ProviderResp).map fun resp =>
+        ({ method := req.method, headers := req.headers, rebuiltUri := fp.rebuiltUri,
+           body := fp.body, identity := resp.identity } : Returned) := by
+  obtain ⟨fp, _, _, hv⟩ := validate_of_authOf_ok H cfg P s req a ha
+  refine ⟨fp, ?_⟩
+  rw [hv, validateSignature_of_prevalidate_ok H P s a _ _ _ sts hp hs]
+  rfl
 
 end SigV4
